@@ -376,6 +376,17 @@ fn gen_c13(tier: &str, rng: &mut Sm) -> Gen {
             _ => tl![A(2)],
         }
     };
+    // deterministic degenerate weight vectors: all zero (the error must be reported, whatever the length
+    // and the structure), and exactly one positive member at each position (it alone is used)
+    let mut fixed: Vec<Vec<i64>> = vec![];
+    for len in 1..=4usize {
+        fixed.push(vec![0; len]);
+        for p in 0..len {
+            let mut w = vec![0; len];
+            w[p] = 1 + (p as i64) * 3;
+            fixed.push(w);
+        }
+    }
     for r in 0..reps {
         // left-nested chains (the with_item_and_weight idiom), right-nested and balanced trees
         for len in 1..=5usize {
@@ -408,6 +419,27 @@ fn gen_c13(tier: &str, rng: &mut Sm) -> Gen {
         }
         g.inputs.push(case(rng, if r % 2 == 0 { draws } else { 500 }, 1, pop.clone(), chain));
     }
-    g.meta("generator", "marker members (best / worst / random over a fixed 5-individual population); left-nested chains, right-nested chains and random trees of <= 5 weighted members, the dynamic list with the same weights; weights from {0,1,2,3,7} and u32 boundaries {0,1,2^31,2^32-2,2^32-1}");
+    for ws in fixed.iter() {
+        let leaves: Vec<Tree> = ws.iter().enumerate().map(|(i, w)| tl![A(5), a(*w), marker(i)]).collect();
+        let mut left = leaves[0].clone();
+        for l in &leaves[1..] {
+            left = tl![A(6), left, l.clone()];
+        }
+        let mut right = leaves[ws.len() - 1].clone();
+        for l in leaves[..ws.len() - 1].iter().rev() {
+            right = tl![A(6), l.clone(), right];
+        }
+        let mut d = tl![A(7)];
+        for (i, w) in ws.iter().enumerate().rev() {
+            d = tl![A(8), marker(i), a(*w), d];
+        }
+        let n = if ws.iter().all(|w| *w == 0) { 200 } else { draws / 10 };
+        g.inputs.push(case(rng, n, 1, pop.clone(), left));
+        if ws.len() > 1 {
+            g.inputs.push(case(rng, n, 1, pop.clone(), right));
+        }
+        g.inputs.push(case(rng, n, 1, pop.clone(), d));
+    }
+    g.meta("generator", "marker members (best / worst / random over a fixed 5-individual population); every all-zero weight vector and every single-positive weight vector of length 1..4 in all three structures; left-nested chains, right-nested chains and random trees of <= 5 weighted members, the dynamic list with the same weights; weights from {0,1,2,3,7} and u32 boundaries {0,1,2^31,2^32-2,2^32-1}");
     g
 }
